@@ -1,28 +1,29 @@
 #!/bin/bash
 # usage: tools/run_seeded_scratch.sh <dir with patch.diff> <PROP> [PROP...]
 # Like run_seeded.sh, but leaves /repo and /verif untouched: the seeded change is applied to a
-# scratch worktree /tmp/vs/repo and the checks run from a scratch copy /tmp/vs/verif whose harness
+# scratch worktree $VS/repo (default VS=/tmp/vs) and the checks run from a scratch copy $VS/verif whose harness
 # depends on that worktree. (Used while long runs against /repo are in progress.)
 # NOSYNC=1 keeps the scratch copy of /verif as it is (frozen snapshot for long batches).
 # tools/run_seeded_scratch.sh --clean removes the scratch area.
 set -u
+VS=${VS:-/tmp/vs}
 if [ "${1:-}" = "--clean" ]; then
-  git -C /repo worktree remove --force /tmp/vs/repo 2>/dev/null; rm -rf /tmp/vs; git -C /repo worktree prune; exit 0
+  git -C /repo worktree remove --force $VS/repo 2>/dev/null; rm -rf $VS; git -C /repo worktree prune; exit 0
 fi
 d=$(cd "$1" && pwd); shift
 here="$(cd "$(dirname "$0")/.." && pwd)"
-mkdir -p /tmp/vs
-if [ ! -d /tmp/vs/repo ]; then git -C /repo worktree add --detach /tmp/vs/repo HEAD -q || exit 9; fi
-git -C /tmp/vs/repo checkout -q --detach "$(git -C /repo rev-parse HEAD)"; git -C /tmp/vs/repo checkout -q -- .
-[ "${NOSYNC:-}" = 1 ] || rsync -a --delete --exclude 'harness/target*' --exclude 'fuzz/target*' --exclude out --exclude .git --exclude replays --exclude evidence "$here/" /tmp/vs/verif/
-mkdir -p /tmp/vs/verif/replays /tmp/vs/verif/evidence /tmp/vs/verif/out
-sed -i 's|path = "/repo"|path = "/tmp/vs/repo"|' /tmp/vs/verif/harness/Cargo.toml /tmp/vs/verif/fuzz/Cargo.toml 2>/dev/null
+mkdir -p $VS
+if [ ! -d $VS/repo ]; then git -C /repo worktree add --detach $VS/repo HEAD -q || exit 9; fi
+git -C $VS/repo checkout -q --detach "$(git -C /repo rev-parse HEAD)"; git -C $VS/repo checkout -q -- .
+[ "${NOSYNC:-}" = 1 ] || rsync -a --delete --exclude 'harness/target*' --exclude 'fuzz/target*' --exclude out --exclude .git --exclude replays --exclude evidence "$here/" $VS/verif/
+mkdir -p $VS/verif/replays $VS/verif/evidence $VS/verif/out
+sed -i "s|path = \"/repo\"|path = \"$VS/repo\"|" $VS/verif/harness/Cargo.toml $VS/verif/fuzz/Cargo.toml 2>/dev/null
 p=$d/patch.diff; [ -f $d/patch.rebased.diff ] && p=$d/patch.rebased.diff
-git -C /tmp/vs/repo apply $p || { echo "patch does not apply"; exit 9; }
-cd /tmp/vs/verif
+git -C $VS/repo apply $p || { echo "patch does not apply"; exit 9; }
+cd $VS/verif
 for c in "$@"; do
   out=$(./check $c ${TIER:-quick} 2>&1); rc=$?
   echo "$out" | grep -v "^built" | cut -c1-260 | head -${LINES_MAX:-5}
   echo "SEEDED $(basename $d) check=$c rc=$rc"
 done
-git -C /tmp/vs/repo checkout -q -- .
+git -C $VS/repo checkout -q -- .
